@@ -94,11 +94,13 @@ EdgeStep == /\ g.phase = "edges" /\ Len(g.edges) < EdgeBound(g) /\ ~g.solo
             /\ \E f \in ((-g.nunits)..(-1)) \cup (1..g.n) : \E t \in (-g.nunits)..g.n :
                  /\ EdgeIndex(g, f, t) > g.last
                  /\ (f < 0 => Len(g.edges) = 0 /\ g.n <= RootN /\ t >= 0)     \* at most one reference held by a root
-                 /\ \/ g' = [g EXCEPT !.edges = Append(@, <<f, t, "">>), !.last = EdgeIndex(g, f, t)]
-                    (* single-edge graphs over few entries: every kind that can encode the edge *)
+                 /\ \/ g' = [g EXCEPT !.edges = Append(@, <<f, t, "", "">>), !.last = EdgeIndex(g, f, t)]
+                    (* single-edge graphs over few entries: every kind that can encode the edge, *)
+                    (* location-list references in every kind of location entry                  *)
                     \/ /\ Len(g.edges) = 0 /\ g.n <= KindN
                        /\ \E k \in Range(KindsFor(g, f, t)) :
-                            g' = [g EXCEPT !.edges = Append(@, <<f, t, k>>), !.last = EdgeIndex(g, f, t),
+                          \E loc \in (IF IsLoc(k) THEN Range(LocEntryKinds) ELSE {""}) :
+                            g' = [g EXCEPT !.edges = Append(@, <<f, t, k, loc>>), !.last = EdgeIndex(g, f, t),
                                            !.solo = TRUE]
 Finish == /\ g.phase = "edges"
           /\ g' = [g EXCEPT !.phase = "final"]
@@ -110,11 +112,15 @@ KindOf(s, i) == LET f == s.edges[i][1]  t == s.edges[i][2]  ks == KindsFor(s, f,
                 IN IF s.edges[i][3] # "" THEN s.edges[i][3]
                    ELSE ks[((Rot(s) + 13 * i + 5 * f + 3 * (t + s.nunits)) % Len(ks)) + 1]
 
+LocOf(s, i) == IF ~IsLoc(KindOf(s, i)) THEN ""
+               ELSE IF s.edges[i][4] # "" THEN s.edges[i][4]
+               ELSE LocEntryKinds[((Rot(s) + 7 * i + 3 * s.edges[i][1] + s.edges[i][2] + 2 * s.nunits) % Len(LocEntryKinds)) + 1]
+
 Graph(s) ==
     LET tags == [e \in 1..s.n |-> TagOf(s.class[e], e, s.parent[e] = 0, Rot(s))] IN
     [n |-> s.n, nunits |-> s.nunits, unit |-> s.unit, parent |-> s.parent, tag |-> tags,
      decl |-> [e \in 1..s.n |-> DeclOf(s.class[e], tags[e])],
-     refs |-> [i \in 1..Len(s.edges) |-> [from |-> s.edges[i][1], to |-> s.edges[i][2], kind |-> KindOf(s, i)]]]
+     refs |-> [i \in 1..Len(s.edges) |-> [from |-> s.edges[i][1], to |-> s.edges[i][2], kind |-> KindOf(s, i), loc |-> LocOf(s, i)]]]
 
 (* all subsets of entries, in a fixed order *)
 RECURSIVE Subsets(_)
@@ -124,10 +130,13 @@ Subsets(k) == IF k = 0 THEN <<{}>>
 (* reference edges that decide a result: without the edge the target is not  *)
 (* in the closure of the source                                              *)
 Without(G, i) == [G EXCEPT !.refs = SubSeq(G.refs, 1, i - 1) \o SubSeq(G.refs, i + 1, Len(G.refs))]
-Decisive(G) == {G.refs[i].kind : i \in {j \in DOMAIN G.refs :
+DecisiveRefs(G) == {j \in DOMAIN G.refs :
                    /\ G.refs[j].to \in 1..G.n
                    /\ G.refs[j].to \notin LfpF(NeedsFn(Without(G, j)),
-                                               IF G.refs[j].from < 0 THEN RootTargets(Without(G, j)) ELSE {G.refs[j].from})}}
+                                               IF G.refs[j].from < 0 THEN RootTargets(Without(G, j)) ELSE {G.refs[j].from})}
+Decisive(G) == {G.refs[i].kind : i \in DecisiveRefs(G)}
+(* location entry kinds of the decisive location-list references *)
+DecisiveLocs(G) == {G.refs[i].loc : i \in {j \in DecisiveRefs(G) : G.refs[j].loc # ""}}
 (* tags whose classification decides a result: a member-like child that is   *)
 (* retained only as a member of its parent, or a stand-alone child that is    *)
 (* not in the closure of its parent                                          *)
@@ -147,14 +156,15 @@ SubsetsFor(n) == IF FewSubsets /\ n >= 4 /\ n = MaxN
 
 Emit(s) == (Rot(s) + 17 * Len(s.class) + (IF s.last < 0 THEN 0 ELSE s.last)) % EmitMod = 0
 
-Case(G, subs, res, nd, must1) ==
+Case(G, subs, res, nd, must1, want5) ==
     [sys |-> "filter", nunits |-> G.nunits,
      entries |-> [e \in 1..G.n |-> [id |-> e, unit |-> G.unit[e], parent |-> G.parent[e],
                                    tag |-> G.tag[e], decl |-> G.decl[e]]],
      refs |-> G.refs,
      invalid |-> {e \in 1..G.n : HasInvalidRef(G, e)}, rootinvalid |-> RootInvalid(G),
      exp |-> [k \in DOMAIN subs |-> [req |-> subs[k], must |-> res[k].M, may |-> res[k].Y]],
-     decisive |-> Decisive(G), dtags |-> DecisiveTags(G, nd, must1)]
+     decisive |-> Decisive(G), dlocs |-> DecisiveLocs(G), dtags |-> DecisiveTags(G, nd, must1),
+     want5 |-> want5]
 
 (* The closure operators distribute over union, so the closures of all      *)
 (* subsets are assembled from the closures of the singletons; CheckSplit     *)
@@ -176,5 +186,5 @@ Inv == g.phase = "final" =>
                                  /\ (CheckSplit => /\ Traverse([MInit EXCEPT !.required = RootDeps(G)], G, subs[k], 1) = WithRequired(m0, G, subs[k])
                                                    /\ res[k].M = Must(G, subs[k])
                                                    /\ res[k].Y = May(G, subs[k]))
-       /\ (Emit(g) => PrintT(<<"CASE", ToJson(Case(G, subs, res, nd, must1))>>))
+       /\ (Emit(g) => PrintT(<<"CASE", ToJson(Case(G, subs, res, nd, must1, \E i \in DOMAIN g.edges : g.edges[i][4] # ""))>>))
 =============================================================================
